@@ -98,7 +98,7 @@ def parseXLine (line : String) : Option (Nat × List Nat) :=
 read by `LyModel/Valid/XpValid.lean: parseXCons`) are skipped here -/
 def parseXdsl (b : Bytes) : Option (List (Nat × List Nat)) :=
   if b.isEmpty then some []
-  else (((asciiString b).splitOn "\n").filter fun l => !(l.startsWith "must " || l.startsWith "leafref " || l.startsWith "when ")).mapM parseXLine
+  else (((asciiString b).splitOn "\n").filter fun l => !(l.startsWith "must " || l.startsWith "leafref " || l.startsWith "when " || l.startsWith "xpmask ")).mapM parseXLine
 
 def SchemaX.ofHex (dsl xdsl : String) : Option SchemaX := do
   let S ← Schema.ofHex dsl
